@@ -15,6 +15,7 @@ def build(repo, findings):
     sh = u.source('brush-core/src/shell.rs')
     jb.require_text(r'pub struct JobManager \{\s*(///[^\n]*\n\s*)*pub jobs: Vec<Job>,\s*\}', 'JobManager has the one public field `jobs`')
     sh.require_text(r'pub fn jobs_mut\(&mut self\) -> &mut jobs::JobManager \{\s*&mut self\.jobs\s*\}', 'Shell::jobs_mut is `&mut self.jobs`')
+    sh.require_text(r'pub fn jobs\(&self\) -> &jobs::JobManager \{\s*&self\.jobs\s*\}', 'Shell::jobs is `&self.jobs`')
     for fld in ('wait_for_terminate: bool,', 'wait_for_first_or_next: bool,', 'variable_to_receive_id: Option<String>,', 'ids: Vec<String>,'):
         wt.require_text(r'\n\s*' + fld.replace('<', r'\<').replace('>', r'\>'), 'field WaitCommand.' + fld)
     wt.require_text(r'impl builtins::Command for WaitCommand \{\s*type Error = brush_core::Error;', 'associated type Error = brush_core::Error')
@@ -31,6 +32,7 @@ def build(repo, findings):
     f.replace("context: brush_core::ExecutionContext<'_, SE>", "context: ExecutionContext<'_>", 'R4', 'extension generic erased; context projected to its shell')
     f.replace('Self::Error', 'brush_core::Error', 'R5', 'associated type of the trait impl resolved (text checked)')
     f.resub(r'\bcontext\.shell\.jobs_mut\(\)', 'context.shell.jobs', 'R22', 'accessor inlined: jobs_mut() is `&mut self.jobs` (text checked)', count=None)
+    f.resub(r'\bcontext\.shell\.jobs\(\)', 'context.shell.jobs', 'R22', 'accessor inlined: jobs() is `&self.jobs`', count=None)
     f.resub(r'\bcontext\.shell\.options\(\)\.', 'context.shell.options.', 'R22', 'accessor inlined', count=None)
     f.resub(r"\bid\.starts_with\('%'\)", "string_starts_with_char(id, '%')", 'R14', 'str::starts_with(char) -> stub (uninterpreted)', count=None)
     f.resub(r'writeln!\(\s*context\.stderr\(\),\s*"\{\}: no such job: \{\}",\s*context\.command_name,\s*id\s*\)\?;', 'vx_report_no_such_job(&context, id)?;', 'R8', 'diagnostic -> stub with the same error path', count=None)
@@ -38,6 +40,8 @@ def build(repo, findings):
     f.resub(r'for job in jobs \{', 'for job in jobs.iter() {', 'R24', 'consuming iteration -> by reference', count=None)
     f.r5_self('WaitCommand', fn)
     f.sig(fn, ret='res', attrs=['#[verifier::loop_isolation(false)]'], ensures=[
+        C('C17 plain-wait-goes-through-wait-all-whatever-the-table-looks-like', '''(self_.ids@.len() == 0 && !self_.wait_for_terminate && !self_.wait_for_first_or_next && self_.variable_to_receive_id is None)
+    ==> final(context.shell).jobs.all_waited@ == old(context.shell).jobs.all_waited@ + 1'''),
         C('C17 waiting-for-job-specs-removes-no-job-from-the-table', 'self_.ids@.len() > 0 ==> ids(final(context.shell).jobs.jobs@) == ids(old(context.shell).jobs.jobs@)'),
     ])
     k = f.loop_ordinal(fn, r'resolve_job_spec')
